@@ -130,11 +130,15 @@ func scaleStrings3(rng *vh.RNG) {
 	strFam("bech32.Decode", `bech32.Encode(strings.Repeat("a", n), []byte{0, 1})`, 40000, 3, func(n int) string { s, _ := bech32.Encode(strings.Repeat("a", n), []byte{0, 1}); return s }, func(s string) { bech32.Decode(s) })
 	scaleProbe("bech32.Encode", 40000, 3, func(n int) (func(), func() interface{}) {
 		d := bytesOf(31, n)
-		return func() { bech32.Encode("a", d) }, func() interface{} { return map[string]interface{}{"family": "n data symbols of value 31", "size_parameter": n} }
+		return func() { bech32.Encode("a", d) }, func() interface{} {
+			return map[string]interface{}{"family": "n data symbols of value 31", "size_parameter": n}
+		}
 	})
 	scaleProbe("bech32.ConvertBits", 100000, 3, func(n int) (func(), func() interface{}) {
 		d := bytesOf(0xff, n)
-		return func() { bech32.ConvertBits(d, 8, 5, true) }, func() interface{} { return map[string]interface{}{"family": "n bytes 0xff, 8 -> 5 bits, padded", "size_parameter": n} }
+		return func() { bech32.ConvertBits(d, 8, 5, true) }, func() interface{} {
+			return map[string]interface{}{"family": "n bytes 0xff, 8 -> 5 bits, padded", "size_parameter": n}
+		}
 	})
 }
 
